@@ -147,3 +147,28 @@ Example C19_nonvacuous :
   (let ln := fun _ : Q => - (1) in forall x, lo7 <= x -> x <= hi7 -> 0 <= - ln x /\ - ln x <= 1).
 Proof. exact metrics_nonvacuous. Qed.
 Print Assumptions C19_nonvacuous.
+
+(* ------------------------------------------------------------------------------------------------
+   THE TIE TO THE SOURCE for the counting metrics.  gen/GenCode.v is regenerated on every run from the bodies of
+   accuracy_score, recall_score and precision_score in utils/_metrics.py (harness/translate_code.py; semantics of
+   the subset: theories/Py.v: int64 labels as Z, np.unique as sort + dedup).  The models above are EQUAL to the
+   generated definitions on every pair of label arrays; the textbook characterisations then read directly on the
+   generated definitions. *)
+From TF Require Import Py CodeEqC19.
+From TFG Require Import GenCode.
+
+Theorem C19_code_accuracy_score : forall y p, py_accuracy_score (zs y) (zs p) = accuracy_score y p.
+Proof. exact code_accuracy_score. Qed.
+Print Assumptions C19_code_accuracy_score.
+
+Theorem C19_code_n_classes : forall y, zlen (uniqueZ (zs y)) = Z.of_nat (n_classes y).
+Proof. exact code_n_classes. Qed.
+Print Assumptions C19_code_n_classes.
+
+Theorem C19_code_recall_score : forall y p, py_recall_score (zs y) (zs p) = recall_score y p.
+Proof. exact code_recall_score. Qed.
+Print Assumptions C19_code_recall_score.
+
+Theorem C19_code_precision_score : forall y p, py_precision_score (zs y) (zs p) = precision_score y p.
+Proof. exact code_precision_score. Qed.
+Print Assumptions C19_code_precision_score.
